@@ -388,6 +388,44 @@ fn run_min0(ctx: &mut Ctx) {
             min0_check(c, &v, &vals, "push_back")
         });
     }
+    // incremental construction with the whole mutating API in between: push_back / set / resize (truncate and grow) / clear /
+    // shrink_to_fit against a Vec<Option<u64>> model (None = element exposed by a growing resize and never written: unspecified).
+    // The object is reused after truncation, which is where stale bits behind `size` can leak into later pushes.
+    for idx in 0..ctx.n(120, 3000) as u64 { for zip in [false, true] {
+        ctx.case(if zip { "zipint/history" } else { "uvmin0/history" }, "ops", idx, |c| {
+            let wcap = if c.rng.chance(1, 3) { 8 } else { 57 }; let wmax = 1 + c.rng.below(wcap) as u32; let min = if zip { match c.rng.below(3) { 0 => 0u64, 1 => c.rng.below(1000), _ => c.rng.next() >> 8 } } else { 0 };
+            let mut model: Vec<Option<u64>> = Vec::new(); let nops = 20 + c.rng.usize_below(120); let mut trace = String::new();
+            let mut v = UintVecMin0::new_empty(); let mut z = ZipIntVec::new_empty();
+            if zip { let span = mask_of(wmax).max(1); z = catch(|| ZipIntVec::new(0, min as usize, (min + span) as usize)).map_err(|p| bad(&p.class(), format!("ZipIntVec::new(0,{min},{}) panicked at {}: {}", min + span, p.loc, p.msg)))?; }
+            c.input_str("wmax", &wmax.to_string()); c.input_str("min", &min.to_string());
+            for step in 0..nops {
+                let curmask = if zip { z.uintmask() as u64 } else { v.uintmask() as u64 }; let n = model.len();
+                let roll = c.rng.below(100);
+                let what;
+                if roll < 50 || n == 0 { // push: mostly within the current width (fast path), sometimes wider (rebuild)
+                    let x = match c.rng.below(8) { 0 => exact_bits(&mut c.rng, wmax), 1 => curmask, 2 => 0, 3 => 1, _ => c.rng.next() & curmask.max(1) } & mask_of(wmax);
+                    what = format!("push_back({x})"); let r = if zip { catch(|| z.push_back((min + x) as usize)) } else { catch(|| v.push_back(x as usize)) };
+                    r.map_err(|p| bad(&p.class(), format!("op#{step} {what} panicked at {}: {} [{trace}]", p.loc, p.msg)))?; model.push(Some(x));
+                } else if roll < 62 { let i = c.rng.usize_below(n); let x = c.rng.next() & curmask; what = format!("set({i},{x})");
+                    let r = if zip { catch(|| z.set(i, (min + x) as usize)) } else { catch(|| v.set(i, x as usize)) };
+                    r.map_err(|p| bad(&p.class(), format!("op#{step} {what} panicked at {}: {} [{trace}]", p.loc, p.msg)))?; model[i] = Some(x);
+                } else if roll < 82 { let k = match c.rng.below(4) { 0 => 0, 1 => n.saturating_sub(1 + c.rng.usize_below(3)), 2 => c.rng.usize_below(n + 1), _ => n + c.rng.usize_below(4) }; what = format!("resize({k})");
+                    let r = if zip { catch(|| z.resize(k)) } else { catch(|| v.resize(k)) };
+                    r.map_err(|p| bad(&p.class(), format!("op#{step} {what} panicked at {}: {} [{trace}]", p.loc, p.msg)))?; model.resize(k, None);
+                } else if roll < 90 { what = "shrink_to_fit".to_string(); if zip { z.shrink_to_fit() } else { v.shrink_to_fit() }
+                } else if roll < 93 && !zip { what = "clear".to_string(); v.clear(); model.clear();
+                } else { what = "read".to_string(); }
+                if trace.len() < 1500 { trace.push_str(&what); trace.push(' '); }
+                let (size, bits) = if zip { (z.size(), z.uintbits()) } else { (v.size(), v.uintbits()) };
+                ensure!(size == model.len(), "len", "op#{step} {what}: size()={size} want {} [{trace}]", model.len());
+                let got = catch(|| (0..size).map(|i| if zip { z.get(i) as u64 - min } else { v.get(i) as u64 }).collect::<Vec<u64>>()).map_err(|p| bad("get_panic", format!("op#{step} {what}: read panicked at {}: {} [{trace}]", p.loc, p.msg)))?;
+                for i in 0..size { if let Some(w) = model[i] { ensure!(got[i] == w, "value_mismatch", "after op#{step} {what}: get({i})={} want {w} (bits={bits}, size={size}) [{trace}]", got[i]); } }
+                c.ev(size as u64);
+            }
+            c.input_str("ops", &trace); c.set_nontrivial(nops >= 2);
+            Ok(())
+        });
+    } }
     let per = ctx.n(8, 200) as u64;
     for kind in 0..NKINDS { for idx in 0..per {
         ctx.case("uvmin0/build_usize", kind_name(kind), idx, |c| {
